@@ -594,10 +594,13 @@ def polygons_mask_ok(ctx: Context, fi: FuncInfo) -> tuple[bool, str]:
 
 
 
-def known_empty(fi: FuncInfo, node: ast.AST, flow: Flow, is_subject) -> Optional[bool]:
-    """On every path to `node`: is the sized subject known empty (True) / non-empty (False)?"""
+def known_empty(fi: FuncInfo, node: ast.AST, flow: Flow, is_subject, *, truthiness: bool = False) -> Optional[bool]:
+    """On every path to `node`: is the sized subject known empty (True) / non-empty (False)?
+    With truthiness=True a bare `if H:` counts as a non-emptiness test (H is a list)."""
     for test, pol in path_conditions(fi, node):
         t = emptiness_test(flow, test)
+        if t is None and truthiness and isinstance(test, (ast.Name, ast.Attribute, ast.Call)) and is_subject(test):
+            t = ('nonempty', test)
         if t is not None and t[0] in ('empty', 'nonempty') and is_subject(t[1]):
             empty = t[0] == 'empty'
             return empty if pol else (not empty)
@@ -744,3 +747,30 @@ def guards(fi: FuncInfo, node: ast.AST, *, within: Optional[ast.AST] = None) -> 
             continue
         out.append((norm_text(t), pol))
     return out
+
+
+# --------------------------------------------------------------------------- local names spelled out
+
+def expand_locals(flow: Flow, expr: ast.AST, depth: int = 4) -> ast.AST:
+    """A copy of `expr` in which every local that has exactly one reaching plain assignment is replaced
+    by the expression assigned to it (recursively): `n = set(ds.dims); n.issuperset(x)` reads
+    `set(ds.dims).issuperset(x)`.  Comprehension variables, parameters and loop variables stay."""
+    import copy
+
+    def rec(e: ast.AST, d: int) -> ast.AST:
+        if isinstance(e, ast.Name) and isinstance(e.ctx, ast.Load) and d > 0:
+            try:
+                df = flow.single_def(e)
+            except Exception:
+                df = None
+            if df is not None and df.kind in ('assign', 'walrus') and df.value is not None:
+                return rec(df.value, d - 1)
+            return e
+        new = copy.copy(e)
+        for field, value in ast.iter_fields(e):
+            if isinstance(value, ast.AST):
+                setattr(new, field, rec(value, d))
+            elif isinstance(value, list):
+                setattr(new, field, [rec(x, d) if isinstance(x, ast.AST) else x for x in value])
+        return new
+    return rec(expr, depth)
